@@ -1832,6 +1832,14 @@ func RunFrame(frame *py.Frame) (res py.Object, err error) {
 	//         save_exc_state(tstate, f);
 	// }
 
+	// A generator which yielded inside an except block is still
+	// handling that exception when it is resumed (a bare raise
+	// re-raises it): it was put aside in the frame
+	if frame.Yielded {
+		vm.exc = frame.Exc
+		frame.Exc = py.ExceptionInfo{}
+	}
+
 	if int(frame.Lasti) >= len(frame.Code.Code) {
 		return nil, py.ExceptionNewf(py.SystemError, "vm: instruction out of range - code most likely finished already")
 	}
@@ -2011,6 +2019,9 @@ fast_yield:
 	//         swap_exc_state(tstate, f);
 	// }
 
+	if vm.why == whyYield {
+		frame.Exc = vm.exc
+	}
 	if vm.curexc.IsSet() {
 		return vm.retval, vm.curexc
 	}
